@@ -10,6 +10,7 @@ from engine.asyncs import await_of_call
 from .common import guarded_by_variant, norm_path, result_of
 
 LEVEL = 'translation_validation'
+EXTRA_CONFIGS = ()   # feature configurations re-analysed in the thorough tier
 META = {
     'level': 'translation_validation',
     'technique': 'translation validation: every generated client method / serve arm / name arm of a corpus of service definitions is checked (from the MIR of the expansion) against the '
